@@ -41,7 +41,10 @@ type progClass struct {
 }
 
 var programs = []progClass{
-	{Name: "ok-small", Kind: "file", Main: "x := 1 + 2\nprint(\"hi\", x)\n"},
+	// small, but uses whatever a transpiler object could number, buffer or cache across targets: a simultaneous
+	// assignment, a loop, a branch chain, a slice literal and growth, a function with two results, a substring,
+	// literals with ! ^ and a newline
+	{Name: "ok-small", Kind: "file", Main: "func swap(a int, b int) (int, int) {\n\treturn b, a\n}\nx := 1 + 2\ny := 5\nx, y = y, x\nxs := []int{1, 2}\nxs[3] = x\nfor i := 0; i < 2; i++ {\n\tif i == 1 {\n\t\ty += i\n\t} else if i == 0 {\n\t\tx += i\n\t}\n}\np, q := swap(x, y)\ns := \"Hi! a^b\"\nprint(s, s[0:2], len(xs), p, q, \"two\\nlines\")\n"},
 	{Name: "ok-import", Kind: "file", Main: "import (\n\thp \"helper.tsh\"\n\t\"strings\"\n)\n\nprint(hp.Twice(\"ab\"))\nprint(strings.Contains(\"hello\", \"ell\"))\n",
 		Extra: map[string]string{"helper.tsh": "func Twice(s string) string {\n\treturn s + s\n}\n"}},
 	{Name: "lexical-error", Kind: "file", Main: "x := \"abc\nprint(x)\n", Reject: true},
